@@ -124,7 +124,7 @@ func runC12(c *Ctx) {
 		c12Run(c, cs)
 		return
 	}
-	files, _ := filepathGlob("/verif/harness/corpus/C12/*.json")
+	files, _ := filepathGlob(verifRoot + "/harness/corpus/C12/*.json")
 	for _, f := range files {
 		var wrap struct{ Case c12Case `json:"case"` }
 		b, err := osReadFile(f)
